@@ -108,6 +108,8 @@ def run(chk, ctx):
             rows.add(evals)
         chk.require(rows == {("args[0]", "args[1]"), ("args[0]", "args[2]"), ("args[0]",)}, "CNT", "CNT:ite:only-selected-branch-evaluated", "no evaluation (hence no draw) of the unselected branch", "ite evaluation sets: %s" % sorted(rows))
     one_context_rule(chk, P)
+    from . import lexrules
+    lexrules.spelling_rule(chk, P, ("ResetRandom", "Semi"))   # `resetRandom;` is spelled that way
     chk.not_decided = ["distribution and values of the draws; the numeric range contract of gen_range for bounds up to 2^62 (library, trusted)"]
 
 
